@@ -122,8 +122,8 @@ pub fn run(cfg: &RunCfg) -> PartResult {
     list.extend(entries(cfg.tier, true));
     for entry in list {
         let g = entry.ograph();
-        if cfg.tier == Tier::Quick && g.num_loops() >= 3 {
-            continue;
+        if (cfg.tier == Tier::Quick && g.num_loops() >= 3) || entry.ne() > 5 {
+            continue; // 6-edge graphs (up to 720 sectors, Feynman parameters not abstracted) are outside the claim (DESIGN 13.6)
         }
         let dims = if cfg.tier == Tier::Thorough { entry.dims.clone() } else { vec![entry.dims[(cfg.seed as usize) % entry.dims.len()]] };
         for d in dims {
@@ -149,7 +149,7 @@ pub fn run(cfg: &RunCfg) -> PartResult {
     total.bounds = json!({
         "catalogue": covered,
         "format": "two value-tree formats, both self-describing and f64-exact: serde_json::Value (structs as maps) for the first routing, the harness's SV tree (structs as sequences) for the second",
-        "outside": "other serde formats; text round trips that do not preserve f64"
+        "outside": "other serde formats; graphs with more than 5 edges; text round trips that do not preserve f64"
     });
     total.assumptions = vec!["term equality implies bit-identical samples for every deterministic scalar type".into()];
     total
